@@ -13,7 +13,13 @@ c14.nest_complex and the structural family `extra_programs` below):
              `preamble_sizes`, `trials_per_sample()`, `crossing_weights`,
              `common_preamble_size()`, `get_geometry(0)`, `crossing_size_without_exclusions`;
   L1-trreq   `trials_required f size` vs the real `__trials_required_for_crossing`
-             for every crossed factor and sizes 0..S+2.
+             for every crossed factor and sizes 0..S+2;
+  L1-createflat  Front/CreateFlat.v `create_flat` (a model of `_create` + `Block.__init__` as a whole)
+             run on the recorded `_create` arguments vs the flat record of the real block
+             (harness/flat.py), field by field (geometry sustain maps sorted); the exclusion
+             counts, generated Derivation constraints, excluded_derived and the error flag are
+             inputs read from the real block; designs that need weight desugaring must be
+             answered `unsupported`.
 Search (the property itself, independent of the model):
   * `docsem.doc_sem(program).T` - the documented arithmetic (weighted crossing size,
     minus excluded / impossible combinations when complete crossing is not required,
@@ -269,6 +275,89 @@ def model_create_view(out):
     return view, origins, norm, addsus == "true", smap
 
 
+# --------------------------------------------------------------------------- _create as a whole (Front/CreateFlat.v)
+
+KROW = ("AtMostKInARow", "AtLeastKInARow", "ExactlyK", "ExactlyKInARow", "ExactlyKMultipleInARow")
+
+
+def _sorted_geoms(rec):
+    """the flat record (nested lists of harness/flat.py) with every geometry's sustain pairs sorted"""
+    cons = []
+    for c in rec[14]:
+        c = list(c)
+        if c[0].s in KROW + ("Pin",) and c[-1] is not None:
+            g = c[-1]
+            c[-1] = [g[0], g[1], sorted(g[2])]
+        cons.append(c)
+    return list(rec[:14]) + [cons, rec[15]]
+
+
+def createflat_observation(rec, st, blk):
+    """(model line, expected) : Front/CreateFlat.v `create_flat` on the recorded _create arguments vs the flat
+    record of the real block after _create.  The exclusion counts, the generated Derivation constraints,
+    excluded_derived and the error flag are read from the real block (they come from the user's predicates)."""
+    from sweetpea._internal.primitive import DerivedFactor, Factor, HiddenName
+    r = st["recorded"]
+    design = [rec.factors[i] for i in r["design"] if type(rec.factors[i]).__name__ != "ContinuousFactor"]
+    pos = {id(f): i for i, f in enumerate(design)}
+    gpos = {i: pos[id(rec.factors[i])] for i in r["design"] if id(rec.factors[i]) in pos}
+
+    def fi(f):
+        return pos[id(f)]
+
+    def li(f, l):
+        return [id(x) for x in f.levels].index(id(l))
+    factors = []
+    for f in design:
+        if isinstance(f, DerivedFactor):
+            w = f.first_level.window
+            win = [[fi(d) for d in w.factors], w.width, w.stride, w.start, w.start_delta]
+            levels = [[str(l.name), l.weight, flat._table(l)] for l in f.levels]
+        else:
+            win = None
+            levels = [[str(l.name), l.weight, []] for l in f.levels]
+        factors.append([str(f.name.name) if isinstance(f.name, HiddenName) else str(f.name), isinstance(f.name, HiddenName),
+                        levels, win, bool(f.has_complex_window)])
+
+    def wb_of(g):
+        if g is None:
+            return None
+        return [g[0], g[1], sorted([gpos[a], n] for a, n in g[2] if a in gpos)]
+    cons = []
+    for obj, ci in zip(r["constraint_objs"], r["constraints"]):
+        n = type(obj).__name__
+        if n in KROW:
+            if isinstance(obj.level, Factor):
+                cons.append([_A("factor"), _A(n), ci[2], fi(obj.level), wb_of(ci[3])])
+            else:
+                cons.append([_A(n), ci[2], fi(obj.level.factor), li(obj.level.factor, obj.level), wb_of(ci[3])])
+        elif n == "Exclude":
+            cons.append([_A(n), fi(obj.factor), li(obj.factor, obj.level)])
+        elif n == "Pin":
+            cons.append([_A(n), obj.index, fi(obj.factor), li(obj.factor, obj.level), wb_of(ci[3])])
+        elif n == "Reify":
+            cons.append([_A(n), fi(obj.factor)])
+        elif n == "MinimumTrials":
+            cons.append([_A(n), ci[2]])
+        elif n == "LatinSquare":
+            cons.append([_A(n), [fi(f) for f in obj.factors]])
+        elif n == "Sequential":
+            cons.append([_A(n), fi(obj.factor)])
+        else:
+            cons.append([_A(n)])
+    frec = flat.flat_of_block(blk)
+    same_design = len(blk.design) == len(design) and all(a is b for a, b in zip(blk.design, design))
+    with ir.quiet():
+        excl = [blk.crossing_size_without_exclusions(c) - blk.crossing_sizes[i] // max(1, blk.crossing_sustain_count(c))
+                for i, c in enumerate(blk.crossings)]
+    derivs = [c for c in frec[14] if c[0].s == "Derivation"]
+    al = {"post preamble": "post", "parallel start": "parallel", "equal preamble": "equal"}[r["alignment"]]
+    inp = [factors, [[fi(rec.factors[i]) for i in c] for c in r["crossings"]], list(r["sustains"]), list(r["weights"]), cons,
+           r["rcc"], _A(r["mode"]), _A(al), excl, derivs, frec[13], frec[15]]
+    expected = "(ok %s)" % to_wire(_sorted_geoms(frec)) if same_design else "(error unsupported)"
+    return "(createflat %s)" % to_wire(inp), expected
+
+
 # --------------------------------------------------------------------------- real-side observations of the trial arithmetic
 
 def real_trials_view(block):
@@ -296,6 +385,13 @@ def model_trials_view(out):
             return "(" + " ".join(sh(y) for y in x) + ")"
         return str(x)
     return " ".join([sh(rounded), sh(pre), sh(T), sh(ws), sh(common), sh(geo), sh(sizes)])
+
+
+def first_diff(a, b):
+    i = 0
+    while i < min(len(a), len(b)) and a[i] == b[i]:
+        i += 1
+    return "differ at char %d: real ...%s  model ...%s" % (i, a[max(0, i - 60):i + 80], b[max(0, i - 60):i + 80])
 
 
 def trreq_cases(block):
@@ -685,6 +781,12 @@ def run(ctx, res):
                 continue
             lines.append("(trials %s %s %s)" % (w, r["mode"], to_wire(list(r["weights"]))))
             expect.append(("trials", real, p))
+            try:
+                cl, ce = createflat_observation(rec, st, blk)
+                lines.append(cl)
+                expect.append(("createflat", ce, p))
+            except Exception as e:  # noqa
+                found.append(("harness", "harness error in createflat_observation: %s %s" % (type(e).__name__, str(e)[:200]), {}, p, False))
             for fi, size, val in trreq_cases(blk):
                 lines.append("(trreq %s %d %d)" % (w, fi, size))
                 expect.append(("trreq", str(val), p))
@@ -765,6 +867,14 @@ def run(ctx, res):
             res.layer("L1-create", ok)
             if not ok:
                 corr_bad.append(("create", p, rv, mv[0]))
+        elif kind == "createflat":
+            ok = (real == mod)
+            res.layer("L1-createflat", ok)
+            if ok:
+                stats["createflat:" + ("unsupported-desugar" if mod.startswith("(error") else "ok")] = \
+                    stats.get("createflat:" + ("unsupported-desugar" if mod.startswith("(error") else "ok"), 0) + 1
+            else:
+                corr_bad.append(("createflat", p, first_diff(real, mod), ""))
         elif kind == "trials":
             mv = model_trials_view(mod)
             ok = (real == mv)
@@ -791,7 +901,7 @@ def run(ctx, res):
         kind, p, real, mod = corr_bad[0]
         res.violations.append(Violation(
             "corr:L1-" + kind, "model Front/%s.v and the real constructors disagree on %d observations, first: real=%s model=%s"
-            % ("Create" if kind == "create" else "Trials", len(corr_bad), real[:300], mod[:300]),
+            % ({"create": "Create", "createflat": "CreateFlat"}.get(kind, "Trials"), len(corr_bad), real[:300], mod[:300]),
             {"layer": "L1-" + kind, "program": p, "real": real[:2000], "model": mod[:2000], "theorems": ["C16_*"]}, failing_input=False))
         res.notes.append("model/code disagreements: %d (first layer L1-%s: real=%s model=%s)" % (
             len(corr_bad), corr_bad[0][0], corr_bad[0][2][:200], corr_bad[0][3][:200]))
